@@ -812,6 +812,10 @@ class Engine:
         for path in list(self.process_paths.keys()):
             if starts_with(path, deletion):
                 del self.process_paths[path]
+                # Whatever the process had in flight goes with it, also
+                # when another update of the same instant puts a new
+                # process under the same path.
+                self.front.pop(path, None)
 
         for path in list(self._step_paths):
             if starts_with(path, deletion):
